@@ -198,7 +198,11 @@ class ControllerApplication(zigpy.application.ControllerApplication):
         for cnt_group in self.state.counters:
             cnt_group.reset()
 
-        ezsp.add_callback(self.ezsp_callback_handler)
+        # zigpy starts the network more than once on one connection when it forms a new
+        # network (it needs a running network for the energy scan): register only once
+        if self.ezsp_callback_handler not in ezsp._callbacks.values():
+            ezsp.add_callback(self.ezsp_callback_handler)
+
         self.controller_event.set()
 
         group_membership = {}
